@@ -217,7 +217,12 @@ func jsonRebuild(k *K, t *trie.Trie, what string) *trie.Trie {
 
 func applyOp(k *K, t *trie.Trie, m *setModel, o trieOp, what string) bool {
 	if o.del {
-		got := t.Delete([]byte(o.s))
+		dbuf := append(append([]byte("<<"), o.s...), ">>tail"...)
+		got := t.Delete(dbuf[2 : 2+len(o.s)])
+		if string(dbuf) != "<<"+o.s+">>tail" {
+			k.Failf("delete-modifies-arg", "%s: Delete wrote into its caller's memory (%q)", what, dbuf)
+			return false
+		}
 		want := m.Delete(o.s)
 		if got != want {
 			k.Failf("delete-result", "%s: %s returned %v, model says %v", what, o, got, want)
@@ -228,11 +233,17 @@ func applyOp(k *K, t *trie.Trie, m *setModel, o trieOp, what string) bool {
 			k.Count("deletes_effective", 1)
 		}
 	} else {
-		arg := []byte(o.s)
+		// The argument is a window of a larger buffer, and is overwritten after
+		// the call: the trie must neither write to it nor keep referring to it.
+		buf := append(append([]byte("<<"), o.s...), ">>tail"...)
+		arg := buf[2 : 2+len(o.s)]
 		t.Add(arg)
-		if string(arg) != o.s {
-			k.Failf("add-modifies-arg", "%s: Add modified its argument", what)
+		if string(buf) != "<<"+o.s+">>tail" {
+			k.Failf("add-modifies-arg", "%s: Add wrote into its caller's memory (%q)", what, buf)
 			return false
+		}
+		for i := range buf {
+			buf[i] = '#'
 		}
 		m.Add(o.s)
 		k.Count("adds", 1)
@@ -329,7 +340,7 @@ func c15Exhaustive(c *Ctx) {
 }
 
 func c15Random(c *Ctx) {
-	n := c.N(1500, 60000)
+	n := c.N(1000, 60000)
 	for i := 0; i < n; i++ {
 		c.Case(int64(i), func(k *K) {
 			r := k.Rand()
